@@ -116,16 +116,56 @@ theorem treeOf_append_of_lt (w : World V) (x : SysRec V) {s : Nat} (hs : s < w.s
   simp only
   rw [List.getElem?_append_left hs]
 
-/-- every operation preserves the invariant -/
-theorem step_memoOK (w : World V) (hw : MemoOK w) (op : Op V) : MemoOK (step w op).1 := by
-  cases op with
-  | readView s form d path =>
-    simp only [step]
+theorem viewAt_systems {w w' : World V} {s form : Nat} {d : Int} {v : Option (Snap V)}
+    (h : viewAt w s form d = some (w', v)) : w'.systems = w.systems := by
+  unfold viewAt at h
+  cases hr : w.systems[s]? with
+  | none => rw [hr] at h; cases h
+  | some r =>
+    rw [hr] at h
+    simp only at h
+    cases hf : memoFind ⟨s, form, d⟩ w.memo with
+    | some v0 => rw [hf] at h; cases h; rfl
+    | none => rw [hf] at h; cases h; rfl
+
+/-- a read changes nothing but the memo -/
+theorem doRead_systems (w : World V) (rd : Read) : (doRead w rd).1.systems = w.systems := by
+  cases rd with
+  | view s form d path =>
+    simp only [doRead]
+    cases hv : viewAt w s form d with
+    | none => rfl
+    | some p => obtain ⟨w', root⟩ := p; exact viewAt_systems hv
+  | tree s path d =>
+    simp only [doRead]
+    cases hr : w.systems[s]? with
+    | none => rfl
+    | some r =>
+      simp only
+      cases r.tree with
+      | none => rfl
+      | some t => rfl
+  | formula s traced form d path =>
+    simp only [doRead]
+    cases hv : viewAt w s form d with
+    | none => rfl
+    | some p =>
+      obtain ⟨w', root⟩ := p
+      simp only
+      cases traced with
+      | true => exact viewAt_systems hv
+      | false => exact viewAt_systems hv
+
+/-- a read keeps the memo sound -/
+theorem doRead_memoOK (w : World V) (hw : MemoOK w) (rd : Read) : MemoOK (doRead w rd).1 := by
+  cases rd with
+  | view s form d path =>
+    simp only [doRead]
     cases hv : viewAt w s form d with
     | none => exact hw
     | some p => obtain ⟨w', root⟩ := p; exact (viewAt_spec hw hv).2.1
-  | readTree s path d =>
-    simp only [step]
+  | tree s path d =>
+    simp only [doRead]
     cases hr : w.systems[s]? with
     | none => exact hw
     | some r =>
@@ -133,8 +173,8 @@ theorem step_memoOK (w : World V) (hw : MemoOK w) (op : Op V) : MemoOK (step w o
       cases r.tree with
       | none => exact hw
       | some t => exact hw
-  | readFormula s traced form d path =>
-    simp only [step]
+  | formula s traced form d path =>
+    simp only [doRead]
     cases hv : viewAt w s form d with
     | none => exact hw
     | some p =>
@@ -143,6 +183,32 @@ theorem step_memoOK (w : World V) (hw : MemoOK w) (op : Op V) : MemoOK (step w o
       cases traced with
       | true => exact (viewAt_spec hw hv).2.1
       | false => exact (viewAt_spec hw hv).2.1
+
+/-- whatever a user function reads while a modification is under way, the systems are untouched and
+    the memo stays sound with respect to the trees in place (the FORMER tree of the system being
+    modified) -/
+theorem runProg_spec (w : World V) (hw : MemoOK w) (p : ModProg V) :
+    MemoOK (runProg w p).1 ∧ (runProg w p).1.systems = w.systems := by
+  induction p generalizing w with
+  | ret r => exact ⟨hw, rfl⟩
+  | read rd k ih =>
+    simp only [runProg]
+    obtain ⟨h1, h2⟩ := ih (doRead w rd).2 (doRead w rd).1 (doRead_memoOK w hw rd)
+    exact ⟨h1, by rw [h2, doRead_systems]⟩
+
+theorem runProg_systems (w : World V) (p : ModProg V) : (runProg w p).1.systems = w.systems := by
+  induction p generalizing w with
+  | ret r => rfl
+  | read rd k ih =>
+    simp only [runProg]
+    rw [ih, doRead_systems]
+
+/-- every operation preserves the invariant -/
+theorem step_memoOK (w : World V) (hw : MemoOK w) (op : Op V) : MemoOK (step w op).1 := by
+  cases op with
+  | readView s form d path => exact doRead_memoOK w hw _
+  | readTree s path d => exact doRead_memoOK w hw _
+  | readFormula s traced form d path => exact doRead_memoOK w hw _
   | newReform b =>
     simp only [step]
     cases hr : w.systems[b]? with
@@ -167,18 +233,30 @@ theorem step_memoOK (w : World V) (hw : MemoOK w) (op : Op V) : MemoOK (step w o
         | none => exact hw
         | some t =>
           simp only
-          cases f t with
-          | error e => exact hw
-          | ok t' =>
-            simp only
-            by_cases hn : isNode t' = true
-            · rw [if_pos hn]; exact memoOK_nil _
-            · rw [if_neg hn]; exact hw
-  | reload s cs =>
+          have hp := (runProg_spec w hw (f t)).1
+          cases hrp : runProg w (f t) with
+          | mk w1 res =>
+            rw [hrp] at hp
+            cases res with
+            | error e => exact hp
+            | ok t' =>
+              simp only
+              by_cases hn : isNode t' = true
+              · rw [if_pos hn]; exact memoOK_nil _
+              · rw [if_neg hn]; exact hp
+  | reload s cs hook =>
     simp only [step]
     cases hr : w.systems[s]? with
     | none => exact hw
-    | some r => exact memoOK_nil _
+    | some r =>
+      simp only
+      have hp := (runProg_spec w hw (hook (.node cs))).1
+      cases hrp : runProg w (hook (.node cs)) with
+      | mk w1 res =>
+        rw [hrp] at hp
+        cases res with
+        | error e => exact hp
+        | ok t' => exact memoOK_nil _
 
 theorem run_memoOK (w : World V) (hw : MemoOK w) (ops : List (Op V)) : MemoOK (run w ops) := by
   induction ops generalizing w with
@@ -206,53 +284,15 @@ theorem length_setTree (systems : List (SysRec V)) (s : Nat) (t : PNode V) :
     (setTree systems s t).length = systems.length := by
   unfold setTree; simp
 
+theorem treeOf_congr {w w' : World V} (h : w'.systems = w.systems) (s : Nat) : w'.treeOf s = w.treeOf s := by
+  unfold World.treeOf; rw [h]
+
 /-- the number of systems never decreases -/
 theorem step_length_le (w : World V) (op : Op V) : w.systems.length ≤ (step w op).1.systems.length := by
   cases op with
-  | readView s form d path =>
-    simp only [step]
-    cases hv : viewAt w s form d with
-    | none => exact Nat.le_refl _
-    | some p =>
-      obtain ⟨w', root⟩ := p
-      unfold viewAt at hv
-      cases hr : w.systems[s]? with
-      | none => rw [hr] at hv; cases hv
-      | some r =>
-        rw [hr] at hv
-        simp only at hv
-        cases hf : memoFind ⟨s, form, d⟩ w.memo with
-        | some v0 => rw [hf] at hv; cases hv; exact Nat.le_refl _
-        | none => rw [hf] at hv; cases hv; exact Nat.le_refl _
-  | readTree s path d =>
-    simp only [step]
-    cases hr : w.systems[s]? with
-    | none => exact Nat.le_refl _
-    | some r =>
-      simp only
-      cases r.tree with
-      | none => exact Nat.le_refl _
-      | some t => exact Nat.le_refl _
-  | readFormula s traced form d path =>
-    simp only [step]
-    cases hv : viewAt w s form d with
-    | none => exact Nat.le_refl _
-    | some p =>
-      obtain ⟨w', root⟩ := p
-      have : w'.systems = w.systems := by
-        unfold viewAt at hv
-        cases hr : w.systems[s]? with
-        | none => rw [hr] at hv; cases hv
-        | some r =>
-          rw [hr] at hv
-          simp only at hv
-          cases hf : memoFind ⟨s, form, d⟩ w.memo with
-          | some v0 => rw [hf] at hv; cases hv; rfl
-          | none => rw [hf] at hv; cases hv; rfl
-      simp only
-      cases traced with
-      | true => simp only [if_true]; rw [this]; exact Nat.le_refl _
-      | false => simp only [Bool.false_eq_true, if_false]; rw [this]; exact Nat.le_refl _
+  | readView s form d path => simp only [step, doRead_systems]; exact Nat.le_refl _
+  | readTree s path d => simp only [step, doRead_systems]; exact Nat.le_refl _
+  | readFormula s traced form d path => simp only [step, doRead_systems]; exact Nat.le_refl _
   | newReform b =>
     simp only [step]
     cases hr : w.systems[b]? with
@@ -272,67 +312,40 @@ theorem step_length_le (w : World V) (op : Op V) : w.systems.length ≤ (step w 
         | none => exact Nat.le_refl _
         | some t =>
           simp only
-          cases f t with
-          | error e => exact Nat.le_refl _
-          | ok t' =>
-            simp only
-            by_cases hn : isNode t' = true
-            · rw [if_pos hn]; simp only [length_setTree]; exact Nat.le_refl _
-            · rw [if_neg hn]; exact Nat.le_refl _
-  | reload s cs =>
+          have hp := runProg_systems w (f t)
+          cases hrp : runProg w (f t) with
+          | mk w1 res =>
+            rw [hrp] at hp
+            simp only at hp
+            cases res with
+            | error e => simp only [hp]; exact Nat.le_refl _
+            | ok t' =>
+              simp only
+              by_cases hn : isNode t' = true
+              · rw [if_pos hn]; simp only [length_setTree, hp]; exact Nat.le_refl _
+              · rw [if_neg hn]; simp only [hp]; exact Nat.le_refl _
+  | reload s cs hook =>
     simp only [step]
     cases hr : w.systems[s]? with
     | none => exact Nat.le_refl _
-    | some r => simp only [length_setTree]; exact Nat.le_refl _
+    | some r =>
+      simp only
+      have hp := runProg_systems w (hook (.node cs))
+      cases hrp : runProg w (hook (.node cs)) with
+      | mk w1 res =>
+        rw [hrp] at hp
+        simp only at hp
+        cases res with
+        | error e => simp only [hp]; exact Nat.le_refl _
+        | ok t' => simp only [length_setTree, hp]; exact Nat.le_refl _
 
 /-- an operation that does not target system `s'` leaves the tree of `s'` alone -/
 theorem step_treeOf_other (w : World V) (op : Op V) (s' : Nat) (hs' : s' < w.systems.length)
     (ht : op.target ≠ some s') : (step w op).1.treeOf s' = w.treeOf s' := by
   cases op with
-  | readView s form d path =>
-    simp only [step]
-    cases hv : viewAt w s form d with
-    | none => rfl
-    | some p =>
-      obtain ⟨w', root⟩ := p
-      unfold viewAt at hv
-      cases hr : w.systems[s]? with
-      | none => rw [hr] at hv; cases hv
-      | some r =>
-        rw [hr] at hv
-        simp only at hv
-        cases hf : memoFind ⟨s, form, d⟩ w.memo with
-        | some v0 => rw [hf] at hv; cases hv; rfl
-        | none => rw [hf] at hv; cases hv; rfl
-  | readTree s path d =>
-    simp only [step]
-    cases hr : w.systems[s]? with
-    | none => rfl
-    | some r =>
-      simp only
-      cases r.tree with
-      | none => rfl
-      | some t => rfl
-  | readFormula s traced form d path =>
-    simp only [step]
-    cases hv : viewAt w s form d with
-    | none => rfl
-    | some p =>
-      obtain ⟨w', root⟩ := p
-      have : w'.treeOf s' = w.treeOf s' := by
-        unfold viewAt at hv
-        cases hr : w.systems[s]? with
-        | none => rw [hr] at hv; cases hv
-        | some r =>
-          rw [hr] at hv
-          simp only at hv
-          cases hf : memoFind ⟨s, form, d⟩ w.memo with
-          | some v0 => rw [hf] at hv; cases hv; rfl
-          | none => rw [hf] at hv; cases hv; rfl
-      simp only
-      cases traced with
-      | true => simp only [if_true]; exact this
-      | false => simp only [Bool.false_eq_true, if_false]; exact this
+  | readView s form d path => exact treeOf_congr (doRead_systems w _) s'
+  | readTree s path d => exact treeOf_congr (doRead_systems w _) s'
+  | readFormula s traced form d path => exact treeOf_congr (doRead_systems w _) s'
   | newReform b =>
     simp only [step]
     cases hr : w.systems[b]? with
@@ -353,19 +366,37 @@ theorem step_treeOf_other (w : World V) (op : Op V) (s' : Nat) (hs' : s' < w.sys
         | none => rfl
         | some t =>
           simp only
-          cases f t with
-          | error e => rfl
-          | ok t' =>
-            simp only
-            by_cases hn : isNode t' = true
-            · rw [if_pos hn]; exact treeOf_setTree_ne w.systems w.memo [] s s' t' hne
-            · rw [if_neg hn]
-  | reload s cs =>
+          have hp := runProg_systems w (f t)
+          cases hrp : runProg w (f t) with
+          | mk w1 res =>
+            rw [hrp] at hp
+            simp only at hp
+            cases res with
+            | error e => exact treeOf_congr hp s'
+            | ok t' =>
+              simp only
+              by_cases hn : isNode t' = true
+              · rw [if_pos hn, treeOf_setTree_ne w1.systems w1.memo [] s s' t' hne]
+                exact treeOf_congr hp s'
+              · rw [if_neg hn]; exact treeOf_congr hp s'
+  | reload s cs hook =>
     have hne : s' ≠ s := fun c => ht (by rw [c]; rfl)
     simp only [step]
     cases hr : w.systems[s]? with
     | none => rfl
-    | some r => exact treeOf_setTree_ne w.systems w.memo [] s s' _ hne
+    | some r =>
+      simp only
+      have hp := runProg_systems w (hook (.node cs))
+      cases hrp : runProg w (hook (.node cs)) with
+      | mk w1 res =>
+        rw [hrp] at hp
+        simp only at hp
+        cases res with
+        | error e => exact treeOf_congr hp s'
+        | ok t' =>
+          simp only
+          rw [treeOf_setTree_ne w1.systems w1.memo [] s s' t' hne]
+          exact treeOf_congr hp s'
 
 theorem run_treeOf_other (w : World V) (ops : List (Op V)) (s' : Nat) (hs' : s' < w.systems.length)
     (ht : ∀ op ∈ ops, op.target ≠ some s') :
